@@ -119,6 +119,10 @@ def gen_specs(run):
             tags.append((f"member {pos} of {k} verified under the context of another member", False))
         specs.append({"id": f"c04-batch-{bi}", "group": "fm", "members": mems, "verifies": verifies, "_role": "batch", "_tags": tags, "_conf": [2, 1, 1],
                       "with_gens": False, "log_msm": False})
+    # every proof's challenges must depend on ITS OWN statement's generators, also when the statement is the largest of a mixed batch and not first
+    for sp in gen.mixed_generator_batches(rng, quick, "c04g"):
+        sp["_role"] = "batch"
+        specs.append(sp)
     return specs
 
 
